@@ -14,7 +14,7 @@ SPEC = {
     "trusted": ["harness/root/rig_c04_test.go: fake Consensus = real dsstate on a MapDatastore shared by all peers; fake IPFS BlockGet",
                 "harness/root/rig_test.go: monitor fake = real metrics.Store + PeersetFilter; alerts delivered over an unbuffered channel",
                 "blake2b-256 (golang.org/x/crypto) digests computed by the harness are the hash function of the model"],
-    "level_text": "Theorems (Props/C10.v, all closed) over the Gallina transcription of alertsHandler / vacatePeer / repinFromPeer / distanceChecker / StateSync on top of C04's pin model and C03's allocate, for every pinset, peerset, failing peer, metric state, schedule of survivors and hash function (injective on the peers in play); compared with the real code peer by peer on generated scenarios at every run; the boolean monitor applied to the implementation's scenario (code 2) is proved sound (repin_monitor_sound, sync_monitor_sound, idle_monitor_sound, one_closest_monitor_sound, check_case_sound: no code 2 implies scenario_spec, pin by pin, with C03's alloc_spec for every re-homed pin)",
+    "level_text": "Theorems (Props/C10.v, all closed) over the Gallina transcription of alertsHandler / vacatePeer / repinFromPeer / distanceChecker / StateSync on top of C04's pin model and C03's allocate, for every pinset, peerset, failing peer, metric state, schedule of survivors and hash function (injective on the peers in play); compared with the real code peer by peer on generated scenarios at every run; the boolean monitor applied to the implementation's scenario (code 2) is proved sound (repin_monitor_sound, sync_monitor_sound, idle_monitor_sound, one_closest_monitor_sound, check_case_sound: no code 2 implies scenario_spec, pin by pin, with C03's alloc_spec for every re-homed pin) and, for the removal kind, complete for the model (vacate_model_passes_monitor: the record generated from `vacate` on a pinset without pin-update pins raises no code 2)",
     "level_note": "model tied to code by differential testing (generator-bounded); survivors handle the alert one after the other (interleavings inside one handler are C18's); blake2b injective on the peer IDs in play is the stated cryptographic assumption; S10 kept as a refuted/partial pair",
     "assumptions": ["blake2b-256 is injective on the peer IDs in play", "members agree on the peerset and trust each other (stated in the property)",
                     "LogPin / LogUnpin succeed and act as a map update (C01, C02)", "one latest metric per peer (C09)"],
